@@ -40,6 +40,8 @@ var (
 	fOut     = flag.String("out", "", "internal: worker output file")
 	fSteps   = flag.Int("steps", 0, "override steps per run")
 	fWorkers = flag.Int("workers", 0, "override worker count")
+	fVariant = flag.String("variant", "", "override genesis variants (comma separated; debugging)")
+	fProfile = flag.String("profile", "", "override the workload profile with another property's (debugging)")
 )
 
 func main() {
@@ -96,6 +98,9 @@ func planFor(prop, tier string) plan {
 	}
 	if *fSteps > 0 {
 		p.steps = *fSteps
+	}
+	if *fVariant != "" {
+		p.variants = strings.Split(*fVariant, ",")
 	}
 	if *fWorkers > 0 {
 		p.workers = *fWorkers
@@ -156,7 +161,11 @@ func runWorker(prop, tier string, seed int64, w int) (out workerOut) {
 	var runErrs []string
 	for vi, variant := range pl.variants {
 		s := seed*1000003 + int64(w)*7919 + int64(vi)*104729
-		res := run.Exec(run.Config{Seed: s, Steps: pl.steps, Profile: gen.ProfileFor(prop), Genesis: variant, Monitors: mons, Rep: rep,
+		profProp := prop
+		if *fProfile != "" {
+			profProp = *fProfile
+		}
+		res := run.Exec(run.Config{Seed: s, Steps: pl.steps, Profile: gen.ProfileFor(profProp), Genesis: variant, Monitors: mons, Rep: rep,
 			Raw: prop == "C03", Bootstrap: true, Whale: prop == "C05" || prop == "C07" || prop == "C01" || prop == "C11", SeedTag: fmt.Sprintf("s%d-w%d-%s", seed, w, variant)})
 		if res.Err != nil {
 			runErrs = append(runErrs, res.Err.Error())
@@ -242,6 +251,12 @@ func parent() int {
 			args := []string{"-s", "QUIT", to, self, "-prop", prop, "-tier", tier, "-seed", fmt.Sprint(*fSeed), "-worker", fmt.Sprint(w), "-out", of, "-replaydir", *fReplayD, "-known", *fKnown}
 			if *fSteps > 0 {
 				args = append(args, "-steps", fmt.Sprint(*fSteps))
+			}
+			if *fVariant != "" {
+				args = append(args, "-variant", *fVariant)
+			}
+			if *fProfile != "" {
+				args = append(args, "-profile", *fProfile)
 			}
 			cmd := exec.Command("timeout", args...)
 			lfh, _ := os.Create(lf)
